@@ -775,18 +775,19 @@ def object_construct(expression: exp.Expression) -> exp.Expression:
 def regex_replace(expression: exp.Expression) -> exp.Expression:
     """Transform regex_replace expressions from snowflake to duckdb."""
 
-    if isinstance(expression, exp.RegexpReplace) and isinstance(expression.expression, exp.Literal):
+    if isinstance(expression, exp.RegexpReplace):
         if len(expression.args) > 3:
             # see https://docs.snowflake.com/en/sql-reference/functions/regexp_replace
             raise NotImplementedError(
                 "REGEXP_REPLACE with additional parameters (eg: <position>, <occurrence>, <parameters>) not supported"
             )
 
-        # pattern: snowflake requires escaping backslashes in single-quoted string constants, but duckdb doesn't
-        # see https://docs.snowflake.com/en/sql-reference/functions-regexp#label-regexp-escape-character-caveats
-        expression.args["expression"] = exp.Literal(
-            this=expression.expression.this.replace("\\\\", "\\"), is_string=True
-        )
+        if isinstance(expression.expression, exp.Literal):
+            # pattern: snowflake requires escaping backslashes in single-quoted string constants, but duckdb doesn't
+            # see https://docs.snowflake.com/en/sql-reference/functions-regexp#label-regexp-escape-character-caveats
+            expression.args["expression"] = exp.Literal(
+                this=expression.expression.this.replace("\\\\", "\\"), is_string=True
+            )
 
         if not expression.args.get("replacement"):
             # if no replacement string, the snowflake default is ''
